@@ -4,7 +4,7 @@
 From Coq Require Import Extraction ExtrOcamlBasic.
 From V.Lib Require Import Bytes Base64.
 From V.Lib Require Import NetAddr.
-From V.Model Require Import Signed Cookies CookieStore Jar.
+From V.Model Require Import Signed Cookies CookieStore Jar Csrf.
 Extraction Blacklist String List Nat Bytes Int Char Array Buffer Hashtbl Printf Sx Conv Adapters Driver.
 Set Extraction Optimize.
 Separate Extraction
@@ -15,4 +15,5 @@ Separate Extraction
   Cookies.make_cookie Cookies.cookie_string Cookies.select_domain
   CookieStore.store_save CookieStore.store_load CookieStore.store_clear CookieStore.split_cookie_name
   CookieStore.load_cookie
-  Jar.jar_apply Jar.jar_cookies.
+  Jar.jar_apply Jar.jar_cookies
+  Csrf.callback_state Csrf.decode_state Csrf.encode_state Csrf.generate_cookie_name Csrf.own_cookie_name Csrf.start_state.
